@@ -17,6 +17,9 @@ for d in sorted(glob.glob('/verif/seeded/C*')):
         'verdict': row['verdict'] if row else 'not run',
         'assertions': row['labels'] if row else [],
     }
+    r2 = json.load(open('/verif/seeded/round2_first_sight.json'))
+    if name in r2['first_sight']:
+        m['verif']['first_sight'] = r2['first_sight'][name]
     if row and row['verdict'] != 'VIOLATION':
         m['verif']['why_not_flagged'] = 'see DESIGN.md section 7 (Misses)'
     json.dump(m, open(mp, 'w'), indent=1)
